@@ -669,7 +669,7 @@ def run_shard(spec: Dict[str, Any], rec) -> None:
 def finish(agg: Dict[str, Any], tier: str) -> Dict[str, Any]:
     c = agg["counters"]
     return {
-        "exhaustive": {
+        "exhaustive_parts": {
             "roman_numerals": "every value 1..3999, styles R and r (80 documents of 100 pages)",
             "letter_labels": "every value 1..26 at every St, styles A and a",
             "pdfdocencoding": "each of the 232 defined codes alone, the non-Latin-1 codes in pairs, all codes in one string",
